@@ -24,6 +24,7 @@ from sim.props.base import Env, RunBase
 
 ID = 'C04'
 CHUNK = 60
+COLD_EVERY = 16      # restart fault: every 16th run executes in a process that has executed nothing since import
 setup = base.setup
 clean_start = base.clean_start
 chunk_end_clean = base.chunk_end_clean
@@ -157,6 +158,9 @@ def gen_plan(S, index, tier):
                 c['losses'] = shared_losses
             else:
                 c['losses_handle'] = False
+            # the client keeps ONE ion-type list, ONE charge list and ONE isotope list of its own for the whole run,
+            # edits them in place to the settings of each call and passes the same objects every time
+            c['own_lists'] = 'reuse' in faults and S.coin(0.6)
             via = (frs[0] if S.coin(0.7) else S.pick(frs)) if frs and S.coin(0.8) else 'direct'
             ev = {'act': 'frag', 'via': via, 'cfg': c, 'mono': S.coin(0.7), 'out': f'R{nres}', 'sel': S.randint(0, 10 ** 6),
                   'client': S.randint(0, 1), 'pep': S.pick(peps)}
@@ -304,6 +308,7 @@ def execute(plan):
         return out
     run.losses = [tuple(x) for x in plan.get('shared_losses', [])]
     run.losses_nf = N.norm(run.losses)
+    run.own = {'ion_types': [], 'charges': [], 'isotopes': []}
     random.seed(hdr.get('seed', 0) % 999983)
     shape = []
     for ev_i, ev in enumerate(plan['events']):
@@ -408,8 +413,16 @@ def _kwargs(run, cfg):
             losses = tuple(cfg['losses'][0])
         else:
             losses = [tuple(x) for x in cfg['losses']]
-    return dict(ion_types=copy.deepcopy(cfg['ion_types']), charges=copy.deepcopy(cfg['charges']),
-                isotopes=copy.deepcopy(cfg['isotopes']), water_loss=cfg['water_loss'],
+    own = {}
+    for f in ('ion_types', 'charges', 'isotopes'):
+        if cfg.get('own_lists') and isinstance(cfg[f], list):
+            run.own[f][:] = cfg[f]              # edited in place; the same object as in the client's earlier calls
+            own[f] = run.own[f]
+            run.out.probes['own_settings_list_edited_in_place_between_calls'] += 1
+        else:
+            own[f] = copy.deepcopy(cfg[f])
+    return dict(ion_types=own['ion_types'], charges=own['charges'],
+                isotopes=own['isotopes'], water_loss=cfg['water_loss'],
                 ammonia_loss=cfg['ammonia_loss'], losses=losses, max_losses=cfg['max_losses'],
                 return_type=cfg['return_type'], precision=cfg['precision'])
 
@@ -452,9 +465,15 @@ def _do_frag(run, ev_i, ev):
     out.record([ev_i, nres])
     run.results[ev['out']] = res
     opname = 'Fragmenter.fragment' if via != 'direct' else 'fragment'
+    if cfg.get('own_lists'):
+        for f in ('ion_types', 'charges', 'isotopes'):
+            if isinstance(cfg[f], list) and run.own[f] != cfg[f]:
+                if run.violation('ARG', opname, 'settings:' + f,
+                                 f"ARG: {opname} changed the caller's own {f} list: {cfg[f]} -> {run.own[f]}", ev_i):
+                    return True
     # ---- (a) cache coherence / history independence: the same configuration on a fresh private twin
     twin = N.denorm(run.a_nf)
-    kw2 = _kwargs(run, dict(cfg, losses_handle=False))
+    kw2 = _kwargs(run, dict(cfg, losses_handle=False, own_lists=False))
     st = random.getstate()
     random.seed(4242 + ev_i)
     try:
